@@ -7,8 +7,8 @@ EXE = 'c03'
 MODE = 'trace'
 THEOREMS = ['Tbox.C03.C03_only_enabled_ready', 'Tbox.C03.C03_same_open_file_partial', 'Tbox.C03.C03_same_open_file_counterexample',
             'Tbox.C03.C03_badf_pass_safe', 'Tbox.C03.exec_sync', 'Tbox.C03.C03_oneshot_disabled_in_cb', 'Tbox.C03.C03_no_stale_access',
-            'Tbox.C03.C03_counts_match', 'Tbox.C03.C03_interest_agree', 'Tbox.C03.C03_backends_agree',
-            'Tbox.C03.C03_order_indep_syn', 'Tbox.C03.C03_backends_agree_syn', 'Tbox.C03.orderIndepSyn_sound',
+            'Tbox.C03.C03_counts_match', 'Tbox.C03.C03_interest_agree', 'Tbox.C03.C03_backends_agree_partial',
+            'Tbox.C03.C03_order_indep_syn', 'Tbox.C03.C03_backends_agree_syn_partial', 'Tbox.C03.orderIndepSyn_sound',
             'Tbox.C03.C03_close_contract',
             'Tbox.C03.exec_inv',
             'Tbox.C03.C03_select_at_counterexample', 'Tbox.C03.C03_epoll_stale_record_counterexample',
@@ -16,7 +16,7 @@ THEOREMS = ['Tbox.C03.C03_only_enabled_ready', 'Tbox.C03.C03_same_open_file_part
             'Tbox.C03.C03_destroyed_sibling_counterexample', 'Tbox.C03.C03_fd_reuse_counterexample',
             'Tbox.C03.C03_badf_partial_disable_counterexample', 'Tbox.C03.C03_except_backends_counterexample',
             # round 3: whole turns of runLoop() (wait -> due timers -> dispatch -> deferred batch), FD_SETSIZE
-            'Tbox.C03.C03_loop_pass_is_pass', 'Tbox.C03.C03_scripts_make_no_callback', 'Tbox.C03.C03_backends_agree_loop',
+            'Tbox.C03.C03_loop_pass_is_pass', 'Tbox.C03.C03_scripts_make_no_callback', 'Tbox.C03.C03_backends_agree_loop_partial',
             'Tbox.C03.loopPass_order_indep', 'Tbox.C03.C03_late_snapshot_counterexample',
             'Tbox.C03.C03_select_sets_in_bounds', 'Tbox.C03.C03_select_rejects_high_fd',
             'Tbox.C03.C03_select_high_fd_asfound_counterexample', 'Tbox.C03.exec_evLim',
@@ -24,7 +24,15 @@ THEOREMS = ['Tbox.C03.C03_only_enabled_ready', 'Tbox.C03.C03_same_open_file_part
             # event-mask plumbing, over tables regenerated from the source (GenMask.lean)
             'Tbox.C03.C03_mask_tables', 'Tbox.C03.C03_epoll_report_table', 'Tbox.C03.C03_epoll_report_within_interest',
             'Tbox.C03.C03_epoll_request_roundtrip', 'Tbox.C03.C03_select_report_exact', 'Tbox.C03.C03_ready_within_interest',
-            'Tbox.C03.C03_sibling_bits_counterexample', 'Tbox.C03.C03_mask_high_bits_inert']
+            'Tbox.C03.C03_sibling_bits_counterexample', 'Tbox.C03.C03_mask_high_bits_inert',
+            # round 4: kernel readiness under hang-up / error per engine, refused EPOLL_CTL_ADD, state-derived inputs
+            'Tbox.C03.C03_report_is_kernel_then_tables', 'Tbox.C03.C03_report_bounds', 'Tbox.C03.C03_report_select_within_epoll',
+            'Tbox.C03.C03_report_backends_counterexample', 'Tbox.C03.C03_hup_backends_counterexample',
+            'Tbox.C03.C03_err_backends_counterexample', 'Tbox.C03.C03_hup_unmet_mask_spins', 'Tbox.C03.C03_kernel_conditions',
+            'Tbox.C03.C03_ctl_kernel_within_wanted', 'Tbox.C03.C03_refused_add_unnoticed', 'Tbox.C03.C03_refused_add_dead_event',
+            'Tbox.C03.C03_ctl_add_restores', 'Tbox.C03.enableEvF_inv', 'Tbox.C03.enableEvF_breach',
+            'Tbox.C03.C03_init_while_enabled_refused', 'Tbox.C03.C03_enable_twice', 'Tbox.C03.C03_reinit_same_fd_mask_sets_mode',
+            'Tbox.C03.C03_swap_keeps_counts', 'Tbox.C03.C03_pool_block_aba']
 SOURCES = vlib.EVENT_SOURCES + vlib.BASE_SOURCES
 FLAVOUR = 'asan'
 LIBS = ['-ldl']
@@ -35,7 +43,9 @@ SHRINK_TESTS = 60
 TRUSTED = ['model lean/TboxModel/C03/Model.lean hand-written from engines/{epoll,select}/{loop,fd_event}.cpp + object_pool.hpp; the tie is the '
            'trace acceptor: kernel interest and ready list (seen by interposed epoll_ctl/epoll_wait/select) must be what the model says, and '
            'with that ready order every callback, script result and isEnabled() vector of the real loop must equal the model\'s',
-           'Linux epoll/select semantics for socket pairs (level-triggered, interest ∩ readiness), ASan + pool poisoning hook H3 for raw memory safety',
+           'Linux epoll/select semantics for socket pairs, pipes and a refused TCP connect (level-triggered; epoll: requested ∩ ready plus EPOLLERR/EPOLLHUP always; '
+           'select: read set <- IN|HUP|ERR, write set <- OUT|ERR, except set <- PRI), written down as reportOf / condFd in the model and re-measured on the running kernel by '
+           'every check (the K line of every wait must be what the model says that engine reports); ASan + pool poisoning hook H3 for raw memory safety',
            'libc interposition of epoll_ctl/epoll_wait/select and a virtual clock in the harness (props/C03/harness.cpp, harness/vtime.h)',
            'the harness is compiled with -DDEFAULT_MAX_LOOP_ENTRIES=4 (default 256) so that the growth of the epoll_wait array is reached with 6 descriptors',
            'timer heap and deferred queue are not in the model state: which timers are due / which tasks are in the batch is an oracle input of Step.loop (theorems hold for '
@@ -47,15 +57,22 @@ ASSUMPTIONS = ['an event object is not deleted from inside its own callback (the
                'the theorem that a callback is on the same open file the kernel reported on assumes the close contract (no descriptor closed while an event object refers to it); everything else holds without it',
                'wait errors: EINTR (both engines, injected by the interposer) and EBADF (select, real) are covered; any other error makes the select loop terminate by design and is not injected; '
                'the loop is not re-entered from a callback',
-               'epoll_ctl failures are those the kernel itself produces here (ADD on a closed number: EBADF, MOD/DEL after the kernel dropped a closed file: ENOENT); ENOMEM/ENOSPC/EPERM '
-               'on ADD are not injected (enable() ignores the result of epoll_ctl: the model records this as kernel interest 0 with the event enabled, C03_counts_match second disjunct)',
-               'except condition = out-of-band data on an AF_UNIX socket pair as this kernel reports it (POLLPRI; a drain discards it); EPOLLERR/EPOLLHUP '
-               'conditions (peer closed, socket error) are not produced']
+               'epoll_ctl failures: those the kernel itself produces (ADD on a closed number: EBADF, MOD/DEL after the kernel dropped a closed file or after a refused ADD: ENOENT) and '
+               'ENOMEM/ENOSPC/EPERM injected on EPOLL_CTL_ADD by the interposer for any enable() call the op file names (Act.enableF); EEXIST is proved impossible; MOD/DEL are not made '
+               'to fail for other reasons (ep_modify / ep_remove do not allocate). enable() ignores the result of epoll_ctl: the event reports enabled and is never reported until all '
+               'subscribers of the descriptor were disabled and one is enabled again - safe for this property, a liveness loss the API does not report (C03_refused_add_dead_event)',
+               'the ghost flag breach (hypothesis of the same-open-file and back-end-agreement theorems) is also set by every use of the fault injector',
+               'except condition = out-of-band data on an AF_UNIX socket pair as this kernel reports it (POLLPRI; a drain discards it); hang-up / error conditions are those of '
+               'peer close (with and without unread data), peer shutdown(SHUT_WR), pipe ends closed, refused connect; EPOLLRDHUP is never requested by the code, hence never reported',
+               'back-end agreement is claimed for ready descriptors without hang-up / error only: there the engines report different masks by design (counterexample theorems)',
+               'event objects are created by top-level ops only: a delete + new inside one callback that lands on the same heap address (pointer ABA in the snapshot vector) is not '
+               'exercised (ASan quarantines freed blocks) nor modelled (event ids are never reused); by inspection such an event would be enabled on the ready descriptor']
 RULE = ('cases = events (scripts of enable/disable/destroy/initialize/close/readiness actions run inside their callbacks) on 1-6 socket pairs, '
         'API ops and loop passes on the real epoll or select loop; non-trivial = some pass served a shared descriptor or >= 2 ready descriptors '
         'while a callback destroyed/disabled/re-initialised events or reused a descriptor number (driver tags shared-fd, multi-ready, skip-*, '
         'loop-break, cb-destroy, cb-init, cb-fd-reuse), or a timer callback that ran between the wait and the dispatch of a ready descriptor destroyed events / reused a '
-        'descriptor number / created a record (timer+ready with T-destroy, T-fd-reuse, T-new-record); distinct = distinct op text')
+        'descriptor number / created a record (timer+ready with T-destroy, T-fd-reuse, T-new-record), or a descriptor in hang-up / error was reported with a mask beyond the '
+        'subscription or meeting nobody, or a refused EPOLL_CTL_ADD left a dead registration; distinct = distinct op text')
 
 
 # values of <sys/epoll.h> (Linux ABI) and of the anonymous enum in modules/event/fd_event.h (read from the header below)
@@ -136,6 +153,8 @@ def _act(rng, nev, nfd, self_id, spare):
     if NFN[0] and rng.random() < 0.12:
         return rng.choice('tn') + str(rng.randrange(NFN[0] + (1 if rng.random() < 0.1 else 0)))
     r = rng.random()
+    if r < 0.03: return 'E%d' % k
+    if r < 0.06: return rng.choice('hhs') + str(f)
     if r < 0.22: return 'd%d' % k
     if r < 0.36: return 'e%d' % k
     if r < 0.56: return ('x%d' % k) if k != self_id else ('d%d' % k)
@@ -153,7 +172,7 @@ def _act(rng, nev, nfd, self_id, spare):
 
 def gen_case(rng, nops):
     be = rng.choice(['epoll', 'select'])
-    nfd = rng.choice([1, 2, 2, 3, 3, 4, 6, 6])
+    nfd = rng.choice([1, 2, 2, 3, 3, 4, 6, 6, 8, 9])     # 7-9 descriptors: the pipe ends (6, 7) and the refused connection (8) take part
     plan = []                                    # (fd, mask, mode) per initialised event
     for f in range(nfd):
         for _ in range(rng.choice([1, 1, 2, 2, 3, 4])):
@@ -196,7 +215,7 @@ def gen_case(rng, nops):
         r = rng.random()
         if r < 0.45: ops += (['eintr'] if rng.random() < 0.04 else []) + ['pass']
         elif NFN[0] and r < 0.52: ops.append('do %s%d' % (rng.choice('ttn'), rng.randrange(NFN[0])))
-        elif r < 0.62: ops.append('do ' + rng.choice('rururuwbock') + str(rng.randrange(nfd)))
+        elif r < 0.62: ops.append('do ' + rng.choice('rururuwbockhs') + str(rng.randrange(nfd)))
         else: ops.append('do ' + _act(rng, nev, nfd, -1, spare))
     if ops[-1] != 'pass': ops.append('pass')
     NFN[0] = 0
@@ -406,6 +425,131 @@ def gen_badf(rng):
     return ops
 
 
+def gen_hup(rng):
+    """directed (round 4): hang-up / error conditions produced at run time - the peer end of a socket pair is closed (with the send
+    buffer empty or full: ECONNRESET), the peer shuts down its write side, the writer of a pipe (6) / the reader of a pipe (7) goes
+    away, a refused connect (8) - under every interest mask, on both engines, from outside and from inside callbacks; the kernel's
+    report (K line) must be what the kernel model says for THAT engine, the callbacks what the model derives from it"""
+    be = rng.choice(['epoll', 'select'])
+    fds = rng.sample([0, 1, 2, 6, 7, 8], rng.choice([1, 2, 2, 3, 4]))
+    evs, ops = [], ['be ' + be]
+    for f in fds:
+        for _ in range(rng.choice([1, 1, 2, 3])):
+            evs.append((f, rng.choice([1, 2, 4, 3, 5, 6, 7, 2, 1]), rng.choice('pppo')))
+    n = len(evs)
+    def cond(f): return rng.choice(['h%d' % f, 'h%d' % f, 's%d' % f, 'b%d,h%d' % (f, f), 's%d,h%d' % (f, f), 'r%d,h%d' % (f, f), 'o%d,h%d' % (f, f)])
+    for j, (f, m, mode) in enumerate(evs):
+        r = rng.random()
+        g = rng.choice(fds)
+        sc = '-' if r < 0.45 else rng.choice([cond(g), 'u%d' % f, 'd%d' % j, 'd%d,e%d' % (j, j), 'c%d' % g if rng.random() < 0.3 else 'u%d' % g,
+                                               'd%d' % rng.randrange(n), cond(f) + ',d%d' % j, 'h%d,u%d' % (g, g)])
+        ops.append('new ' + sc)
+    for j, (f, m, mode) in enumerate(evs):
+        ops += ['do i%d:%d:%d:%s' % (j, f, m, mode)] + (['do e%d' % j] if rng.random() < 0.93 else [])
+    for f in fds:
+        if rng.random() < 0.5: ops.append('do b%d' % f)
+        if rng.random() < 0.4: ops.append('do r%d' % f)
+    if rng.random() < 0.4: ops.append('pass')
+    for f in fds:
+        if rng.random() < 0.75: ops += ['do ' + x for x in cond(f).split(',')]
+    ops += ['pass', 'pass']
+    for _ in range(rng.choice([0, 1, 2, 4])):
+        f = rng.choice(fds)
+        ops += rng.choice([['do u%d' % f], ['do w%d' % f], ['do h%d' % f], ['do s%d' % f], ['do c%d' % f, 'do r%d' % f],
+                           ['do d%d' % rng.randrange(n)], ['do e%d' % rng.randrange(n)], ['do k%d' % f], []]) + ['pass']
+    return ops
+
+
+def gen_hup_cmp(rng):
+    """the same hang-up scenario on epoll and then on select: the driver compares pass by pass where the theorem applies (quiet
+    descriptors) and records the by-design divergence elsewhere (cmp-hup-err)"""
+    f = rng.choice([0, 1, 6, 7])
+    m = rng.choice([1, 2, 3, 4, 6, 5])
+    body = ['new -', 'new -', 'do i0:%d:%d:p' % (f, m), 'do e0', 'do i1:2:1:p', 'do e1', 'do r2', 'pass',
+            'do ' + rng.choice(['h%d' % f, 's%d' % f, 'h2', 'r%d' % f]), 'pass', 'pass']
+    return ['be epoll'] + body + ['be select'] + body + ['cmp']
+
+
+def gen_ctl(rng):
+    """directed (round 4): EPOLL_CTL_ADD refused by the kernel (E<e>: ENOMEM / ENOSPC / EPERM in turn) - for the first subscriber of
+    a descriptor, then a second subscriber (its MOD fails with ENOENT), disable-all + enable (recovery), refused again, from
+    inside callbacks, combined with close / reopen of the number; on select the same ops must behave like plain enables"""
+    be = rng.choice(['epoll', 'epoll', 'epoll', 'select'])
+    nfd = rng.choice([1, 2, 2])
+    ops = ['be ' + be]
+    n = 2 * nfd + 1
+    sc = [rng.choice(['-', '-', 'E%d' % rng.randrange(n), 'd%d,E%d' % (j, j), 'd%d,e%d' % (j, j), 'd%d' % rng.randrange(n),
+                      'x%d,E%d' % ((j + 1) % n, (j + 2) % n)]) for j in range(n)]
+    ops += ['new ' + s for s in sc]
+    for j in range(n - 1):
+        ops.append('do i%d:%d:%d:%s' % (j, j % nfd, rng.choice([1, 1, 3, 2, 5]), rng.choice('ppo')))
+    ops.append('do i%d:0:%d:p' % (n - 1, rng.choice([1, 0, 8, 3])))          # mask 0 / 8: enable() issues no ADD at all
+    order = list(range(n)); rng.shuffle(order)
+    for j in order:
+        ops.append('do %s%d' % (rng.choice('EEe'), j))
+    ops += ['do b%d' % f for f in range(nfd) if rng.random() < 0.6]
+    ops += ['do r%d' % f for f in range(nfd)] + ['pass']
+    for _ in range(rng.choice([2, 4, 6, 9])):
+        j = rng.randrange(n)
+        ops += rng.choice([['do d%d' % j], ['do e%d' % j], ['do E%d' % j], ['do d%d' % j, 'do E%d' % j], ['do d%d' % j, 'do e%d' % j],
+                           ['do d%d' % k for k in range(n)], ['do c0', 'do r0'], ['do x%d' % j], ['do r%d' % rng.randrange(nfd)], ['pass']])
+        if rng.random() < 0.5: ops.append('pass')
+    ops.append('pass')
+    return ops
+
+
+def gen_state(rng):
+    """directed (round 4, lesson g): inputs equal to the state an object caches, and member swaps that keep every count -
+    initialize() again with THE SAME descriptor and mask (enabled: refused; disabled: the mode still takes effect), enable() twice,
+    two events with equal masks on one descriptor one of them one-shot, an event put on a descriptor number closed and reopened in the
+    same callback, and inside a callback: disable one not-yet-served sibling + enable a spare one (same vector length, same counters,
+    same kernel mask), the same across two descriptors, delete + initialise elsewhere so that the freed record's pool block is reused"""
+    be = rng.choice(['epoll', 'select'])
+    how = rng.choice(['swap', 'swap', 'swap2', 'aba', 'reinit', 'twice', 'reuse', 'mix'])
+    m = rng.choice([1, 1, 3, 2])
+    ops = ['be ' + be]
+    if how == 'swap':
+        # events 0..k-1 enabled on descriptor 0, k..k+1 spare (initialised on 0, disabled); the callback of event c swaps v out, a spare in
+        k = rng.choice([2, 3, 4])
+        c = rng.randrange(k); v = rng.choice([x for x in range(k) if x != c])
+        kind = rng.choice(['d', 'd', 'x'])
+        sc = ['%s%d' % (kind, v), 'e%d' % k] + (['d%d' % (k + 1)] if rng.random() < 0.3 else [])
+        if rng.random() < 0.3: sc = ['e%d' % k, '%s%d' % (kind, v)]
+        for j in range(k + 2): ops.append('new ' + (','.join(sc) if j == c else rng.choice(['-', '-', 'u0'])))
+        for j in range(k + 2): ops.append('do i%d:0:%d:%s' % (j, m, 'o' if (j == v and rng.random() < 0.4) else 'p'))
+        order = list(range(k)); rng.shuffle(order)
+        ops += ['do e%d' % j for j in order] + ['do b0', 'do r0', 'pass', 'pass', 'do r0', 'pass']
+    elif how == 'swap2':
+        # two ready descriptors: the callback on one disables/deletes an event of the other and enables a spare there (or here)
+        sc = [rng.choice(['d2', 'x2']), rng.choice(['e3', 'e4'])]
+        ops += ['new ' + ','.join(sc), 'new -', 'new ' + rng.choice(['-', 'd0,e4']), 'new -', 'new -']
+        ops += ['do i0:0:%d:p' % m, 'do i1:0:%d:o' % m, 'do i2:1:%d:p' % m, 'do i3:1:%d:p' % m, 'do i4:0:%d:p' % m,
+                'do e0', 'do e1', 'do e2', 'do b0', 'do b1'] + rng.choice([['do r0', 'do r1'], ['do r1', 'do r0']]) + ['pass', 'pass']
+    elif how == 'aba':
+        # the freed record of descriptor 1 and the new record of descriptor g share a pool block (g = 1: same descriptor, same block)
+        g = rng.choice([1, 2, 2, 0])
+        ops += ['new x1,i2:%d:%d:p,e2' % (g, m) + rng.choice(['', ',r%d' % g]), 'new x0,i2:%d:%d:p,e2' % (g, m), 'new -',
+                'do i0:0:%d:p' % m, 'do i1:1:%d:p' % m, 'do e0', 'do e1', 'do b0', 'do b1', 'do b2', 'do r0', 'do r1', 'do r2', 'pass', 'pass', 'pass']
+    elif how == 'reinit':
+        mode2 = rng.choice('op')
+        ops += ['new ' + rng.choice(['-', 'i0:0:%d:%s' % (m, mode2), 'd0,i0:0:%d:%s,e0' % (m, mode2)]), 'new -',
+                'do i0:0:%d:p' % m, 'do i0:0:%d:%s' % (m, mode2), 'do e0', 'do i0:0:%d:o' % m, 'do i0:1:%d:p' % m, 'do b0', 'do r0', 'pass', 'pass',
+                'do d0', 'do i0:0:%d:%s' % (m, rng.choice('op')), 'do e0', 'do r0', 'pass', 'pass', 'do e0', 'do r0', 'pass',
+                'do d0', 'do i0:0:%d:p' % rng.choice([m, m ^ 3, 0]), 'do e0', 'pass']
+    elif how == 'twice':
+        ops += ['new e0,e1,e0', 'new e1', 'do i0:0:%d:p' % m, 'do i1:0:%d:%s' % (m, rng.choice('op')), 'do e0', 'do e0', 'do e1', 'do e1', 'do b0', 'do r0',
+                'pass', 'do d0', 'do d0', 'pass', 'do e0', 'do e0', 'do d0', 'pass', 'do d1', 'do d1', 'pass']
+    elif how == 'reuse':
+        # an event created on the number that was closed and reopened within the same callback (and read-ready at once)
+        ops += ['new x1,c1,i2:1:%d:p,e2,r1' % m, 'new -', 'new -', 'do i0:0:1:p', 'do i1:1:%d:p' % m, 'do e0', 'do e1', 'do b1', 'do r0', 'do r1',
+                'pass', 'pass', 'do u1', 'pass']
+    else:
+        # equal masks on one descriptor, one of them one-shot, re-enabled by the persistent sibling's callback
+        ops += ['new e1', 'new -', 'new d0,e0', 'do i0:0:%d:p' % m, 'do i1:0:%d:o' % m, 'do i2:0:%d:p' % m, 'do e0', 'do e1', 'do e2', 'do b0', 'do r0',
+                'pass', 'pass', 'pass']
+    return ops
+
+
 # one minimal witness per defect of the tree as found (also in corpus/C03/*.ops)
 DIRECTED = [
     # D1/D2: the callback of one ready descriptor destroys the only event of the other ready descriptor (symmetric: either order)
@@ -436,13 +580,24 @@ DIRECTED = [
     ['be select', 'new u0', 'new -', 'do i0:0:4:p', 'do i1:0:5:o', 'do e0', 'do e1', 'do o0', 'pass', 'pass', 'do o0', 'do r0', 'pass'],
     # one-shot sharing a descriptor with a persistent event; write readiness
     ['be select', 'new -', 'new u0', 'do i0:0:3:o', 'do i1:0:1:p', 'do e0', 'do e1', 'do r0', 'pass', 'pass', 'do e0', 'do b0', 'pass', 'do w0', 'pass'],
+    # round 4: a write-only subscriber on a hung-up peer (epoll hands it read|write, select write), pipe ends, refused connect
+    ['be epoll', 'new -', 'new -', 'new -', 'new -', 'do i0:0:2:p', 'do e0', 'do i1:6:2:p', 'do e1', 'do i2:7:4:p', 'do e2', 'do i3:8:1:p', 'do e3',
+     'do h0', 'do h6', 'do h7', 'pass', 'pass'],
+    ['be select', 'new -', 'new -', 'new -', 'new -', 'do i0:0:2:p', 'do e0', 'do i1:6:2:p', 'do e1', 'do i2:7:4:p', 'do e2', 'do i3:8:1:p', 'do e3',
+     'do h0', 'do h6', 'do h7', 'pass', 'pass'],
+    # a refused EPOLL_CTL_ADD: dead event, the second subscriber's MOD fails too, recovery after disable-all + enable
+    ['be epoll', 'new -', 'new -', 'do i0:0:1:p', 'do i1:0:1:p', 'do E0', 'do r0', 'pass', 'do e1', 'pass', 'do d0', 'do d1', 'do e1', 'pass',
+     'do b1', 'do s1', 'do h1', 'do i0:1:3:o', 'do e0', 'pass', 'pass'],
+    # the swap that keeps every count (seeded C03-7 pattern) on both engines, the victim one-shot
+    ['be epoll', 'new d1,e2', 'new -', 'new -', 'do i0:0:1:p', 'do i1:0:1:o', 'do i2:0:1:p', 'do e0', 'do e1', 'do r0', 'pass', 'pass'],
+    ['be select', 'new d1,e2', 'new -', 'new -', 'do i0:0:1:p', 'do i1:0:1:o', 'do i2:0:1:p', 'do e0', 'do e1', 'do r0', 'pass', 'pass'],
 ]
 
 
 def gen(rng, tier):
     n = 500 if tier == 'quick' else 25000
     # malformed stream: both sides must answer bad-op
-    yield ['be poll', 'new x0', 'new e1,', 'do i0:9:1:p', 'do i0:0:65536:p', 'do i0:0:1:q', 'do q1', 'frob', 'do', 'pass 1', 'new -', 'do e', 'do i0:0:1', 'do c6', 'do k6', 'do c1025', 'do r1022', 'do o', 'cmp 1', 'cmp', 'tm', 'tm', 'bulk 0', 'bulk 201', 'bulk x', 'bulk 2',
+    yield ['be poll', 'new x0', 'new e1,', 'do h9', 'do s', 'do E', 'new E1,h1022', 'do i0:9:1:p', 'do i0:0:65536:p', 'do i0:0:1:q', 'do q1', 'frob', 'do', 'pass 1', 'new -', 'do e', 'do i0:0:1', 'do c6', 'do k6', 'do c1025', 'do r1022', 'do o', 'cmp 1', 'cmp', 'tm', 'tm', 'bulk 0', 'bulk 201', 'bulk x', 'bulk 2',
            'fn', 'fn x0,', 'fn t16', 'fn t0,n3,x0', 'fn -', 'do t0', 'do t5', 'do n1', 'do n9', 'do t', 'eintr', 'eintr', 'eintr 1', 'pass', 'pass', 'pass']
     for d in DIRECTED:
         yield list(d)
@@ -462,6 +617,14 @@ def gen(rng, tier):
         yield gen_turn(rng)
     for _ in range(n // 10):
         yield gen_high(rng)
+    for _ in range(n):
+        yield gen_hup(rng)
+    for _ in range(n // 5):
+        yield gen_hup_cmp(rng)
+    for _ in range(n // 2):
+        yield gen_ctl(rng)
+    for _ in range(n // 2):
+        yield gen_state(rng)
     if tier == 'thorough':
         for k in (64, 65, 70, 130, 200):     # more shared records alive at once than the pool keeps parked (64)
             yield ['be ' + rng.choice(['epoll', 'select']), 'new -', 'do i0:0:1:p', 'do e0', 'bulk %d' % k, 'do r0', 'pass', 'bulk 3', 'new -',
@@ -472,6 +635,9 @@ def nontrivial(ops, model_lines):
     tags = ' '.join(l for l in model_lines if l.startswith('B '))
     hard = any(t in tags for t in ('skip-', 'loop-break', 'cb-destroy', 'cb-init', 'cb-fd-reuse'))
     if hard and ('shared-fd' in tags or 'multi-ready' in tags): return 1
+    # round 4: a descriptor in hang-up / error was reported and the mask exceeded the subscription or met nobody; a refused ADD left a dead registration
+    if ('ready-hup' in tags or 'ready-err' in tags) and ('cb-mask-beyond-subscription' in tags or 'hup-unmet-mask' in tags): return 1
+    if 'dead-registration' in tags and 'ctl-add-refused' in tags: return 1
     # a timer callback ran between the wait and the dispatch of a ready descriptor and destroyed events / reused a number
     return 1 if 'timer+ready' in tags and ('T-destroy' in tags or 'T-fd-reuse' in tags or 'T-new-record' in tags) else None
 
@@ -490,7 +656,7 @@ def fingerprint(ops, d):
 LEVEL_TEXT = ('Lean 4 theorems over a model of the descriptor-event layer of both back-ends (shared per-descriptor records with reference '
               'and per-condition counters, pool blocks, kernel interest, dispatch with snapshot copy, callbacks as scripts; a loop pass is the whole turn of '
               'runLoop(): wait, callbacks of the due timers, dispatch, batch of deferred tasks, EBADF/EINTR turns; FD_SETSIZE guard of select; event-mask '
-              'tables regenerated from the source): an inductive invariant '
+              'tables regenerated from the source; kernel readiness under hang-up / error per engine; refused EPOLL_CTL_ADD): an inductive invariant '
               'over every execution yields callbacks only on alive, enabled events whose descriptor (the same open file) was reported ready with a '
               'subscribed condition, one-shot disabled inside its callback, no stale access/exception, counters and kernel interest exact, back-end '
               'agreement for order-independent passes; counterexamples proved on the model of the code as found; tied to the real epoll and select '
@@ -499,6 +665,8 @@ LEVEL_NOTE = ('trusted: Lean kernel, hand-written model + trace-acceptor tie (co
               'semantics on socket pairs, libc interposition; raw memory safety is observed by ASan on the implementation, the model proves the '
               'handle/liveness logic; "callback on the same open file the kernel reported on" is proved under the close contract only (counterexample '
               'theorem + replay for a descriptor closed while an enabled event refers to it: the loop cannot know); back-end agreement has a decidable '
-              'premise (OrderIndepSyn) that excludes initialize/destroy/close inside callbacks')
+              'premise (OrderIndepSyn) that excludes initialize/destroy/close inside callbacks, and is PARTIAL: it holds for ready descriptors without hang-up / error '
+              'condition only (counterexample theorems + corpus replays 27/28/31: the engines hand over different masks there, for error-only conditions call different events); '
+              'a refused EPOLL_CTL_ADD leaves an event that reports enabled and is never called (safe here, not reported by the API)')
 TECHNIQUE = 'Lean 4 invariant proof over all executions of an fd-event model (both back-ends) + trace-acceptor correspondence with the real loops'
 DESIGN_REF = 'DESIGN.md §6 C03'
